@@ -97,7 +97,7 @@ claims = {
          "Send side: the control data handed to sendmsg is exactly [SCM_RIGHTS of m.Fds iff any] followed by [SCM_CREDENTIALS of m.Cred iff given], assembled afresh per call, payload untouched. Constructors return sockets with 4096-byte control buffers and non-nil connections."),
    note=TRUST + "A-S1: ParseSocketControlMessage/ParseUnixRights/ParseUnixCredentials never fail on kernel-written control data and describe exactly the installed descriptors (at most one SCM_RIGHTS item per message); 'whole and in order' and close-on-exec on arrival are SOCK_SEQPACKET / MSG_CMSG_CLOEXEC kernel behaviour inside net.UnixConn (not verified); gob framing in container/socket_linux.go is not under contract.",
    design_ref="DESIGN.md §10.2"),
- "C20": dict(level="proof",
+ "C20": dict(level="other",
    text=("Partial (ownership and pid writes; model G: directory creation under interference, where only a single mkdir is atomic): EnsureDirExists returns nil only if this very call created the directory (found and fixed: stat followed by MkdirAll told several concurrent creators that each had created the group); "
          "V2.New marks a handle as not-existing only if its own mkdir created the directory; V2.Destroy and V1.Destroy issue rmdir for the group's directories only through a handle that is not marked existing, and for every controller directory of such a handle; "
          "AddProcesses issues one write per pid carrying exactly that pid's decimal text; Existing() returns the flag."),
